@@ -48,12 +48,17 @@ structure Session where
   pcc : Nat := 0               -- commandCode fixed by PolicyCommandCode, 0 = none
   sym : Nat := 0               -- parameter encryption: 0 none, 1 XOR with SHA-256, 2 AES-128-CFB
   pcrCtr : Nat := 0            -- pcrCounter: value of the TPM's PCR update counter at the first PolicyPCR, 0 = none
+  locality : Nat := 0          -- commandLocality (TPMA_LOCALITY byte) set by PolicyLocality, 0 = none
+  ppRequired : Bool := false   -- isPPRequired (PolicyPhysicalPresence)
+  cpHash : Bytes := []         -- the cpHash fixed by PolicyCpHash, [] = none
   deriving Repr
 
 structure St where
   ents : List Entity := []
   sess : List Session := []
   pcrCounter : Nat := 0        -- gr.pcrCounter as last observed (PCR_Read's pcrUpdateCounter)
+  cmdLocality : Nat := 0       -- the locality the command arrives at
+  pp : Bool := false           -- physical presence asserted by the platform
 
 /-- one entry of the command's authorization area -/
 structure AuthIn where
@@ -186,6 +191,8 @@ inductive Check where
   | authType          -- TPM_RC_AUTH_TYPE
   | badAttributes     -- TPM_RC_ATTRIBUTES (audit attribute on a policy or password session)
   | pcrChanged        -- TPM_RC_PCR_CHANGED: a PCR was updated after the session's PolicyPCR
+  | failLocality      -- TPM_RC_LOCALITY: the policy restricts the locality and the command comes from another one
+  | failPP            -- TPM_RC_PP: the policy demands physical presence
   | noSession
   deriving Repr, DecidableEq
 
@@ -204,6 +211,20 @@ def policyCheck (s : Session) (e : Entity) (cc : Nat) (r : Role) : Check :=
   if s.pDigest ≠ e.policy then .failPolicy
   else if s.pcc ≠ 0 then (if s.pcc ≠ cc then .failPolicyCC else .pass)
   else if r ≠ .user then .failPolicy
+  else .pass
+
+/-- does the locality set by PolicyLocality admit a command arriving at `loc`? Localities 0–4 are a bit map (values below 32),
+    extended localities (32…255) are matched exactly -/
+def localityOk (setting loc : Nat) : Bool :=
+  if loc < 5 then decide (setting ≤ 31) && (setting / 2 ^ loc % 2 == 1)
+  else if loc > 31 then setting == loc else false
+
+/-- the restrictions a policy places on the command it authorizes (`CheckPolicyAuthSession` after the digest and command-code
+    tests): the command's locality, physical presence, the cpHash -/
+def restrictions (st : St) (s : Session) (cph : Bytes) : Check :=
+  if s.locality ≠ 0 ∧ !localityOk s.locality st.cmdLocality then .failLocality
+  else if s.ppRequired ∧ !st.pp then .failPP
+  else if s.cpHash ≠ [] ∧ s.cpHash ≠ cph then .failPolicy
   else .pass
 
 /-- one authorization (`CheckAuthSession`): password, HMAC session or policy session -/
@@ -225,7 +246,10 @@ def checkOne (st : St) (e : Entity) (cc : Nat) (r : Role) (cph : Bytes) (a : Aut
         if !policyAvail e cc r then .unavailable
         else if !pcrCurrent st.pcrCounter s then .pcrChanged
         else match policyCheck s e cc r with
-          | .pass => if s.needPw then pwCheck e a else hmacCheck s (s.key ++ (if s.needAuth then e.auth else [])) cph a
+          | .pass =>
+            (match restrictions st s cph with
+             | .pass => if s.needPw then pwCheck e a else hmacCheck s (s.key ++ (if s.needAuth then e.auth else [])) cph a
+             | bad => bad)
           | bad => bad
 
 inductive Verdict where
@@ -315,6 +339,10 @@ inductive PolicyOp where
   | assert (cc : Nat) (args : Bytes)
   /-- `PolicyContextUpdate` of PolicySecret / PolicySigned: H(H(policyDigest ‖ commandCode ‖ entityName) ‖ policyRef) -/
   | update (cc : Nat) (name ref : Bytes)
+  /-- PolicyLocality with its TPMA_LOCALITY byte -/
+  | locality (loc : Nat)
+  | physicalPresence
+  | cpHash (h : Bytes)
   deriving Repr
 
 /-- PolicyOR is accepted by a trial session always, by a real session when the current digest is listed -/
@@ -327,6 +355,22 @@ def pcrExtend (old sel pcrDigest : Bytes) : Bytes := hash sha256 (old ++ be32 CC
 /-- a digest supplied by the caller must be the digest of the current values -/
 def pcrGivenBad (values given : Bytes) : Bool := given != [] && given != hash sha256 values
 
+def CC_PolicyLocality : Nat := 0x16F
+def CC_PolicyPhysicalPresence : Nat := 0x187
+def CC_PolicyCpHash : Nat := 0x16E
+def RC_RANGE : Nat := 0x08D
+def RC_CPHASH : Nat := 0x151
+
+/-- `TPM2_PolicyLocality`: the new setting of the session, or none when the command is refused (TPM_RC_RANGE): a zero locality,
+    a mix of bit-map and extended localities, a bit map that leaves no locality, two different extended localities -/
+def localityMerge (prev loc : Nat) : Option Nat :=
+  if loc % 256 = 0 then none
+  else if prev ≠ 0 ∧ (decide (prev < 32) != decide (loc % 256 < 32)) then none
+  else if loc % 256 < 32 then
+    let m := (if prev = 0 then 0x1F else prev) &&& (loc % 256)
+    if m = 0 then none else some m
+  else if prev ≠ 0 ∧ prev ≠ loc % 256 then none else some (loc % 256)
+
 /-- one policy command on a policy/trial session: new session and return code (0 = success; otherwise the base code) -/
 def policyStep (s : Session) : PolicyOp → Session × Nat
   | .authValue => ({ s with pDigest := hash sha256 (s.pDigest ++ be32 CC_PolicyAuthValue), needAuth := true, needPw := false }, 0)
@@ -338,9 +382,17 @@ def policyStep (s : Session) : PolicyOp → Session × Nat
       if orOk s ds then
         ({ s with pDigest := hash sha256 (List.replicate 32 0 ++ be32 CC_PolicyOR ++ ds.flatten) }, 0)
       else (s, RC_VALUE)
-  | .restart => ({ s with pDigest := List.replicate 32 0, needAuth := false, needPw := false, pcc := 0, pcrCtr := 0 }, 0)
+  | .restart => ({ s with pDigest := List.replicate 32 0, needAuth := false, needPw := false, pcc := 0, pcrCtr := 0, locality := 0, ppRequired := false, cpHash := [] }, 0)
   | .assert cc args => ({ s with pDigest := hash sha256 (s.pDigest ++ be32 cc ++ args) }, 0)
   | .update cc name ref => ({ s with pDigest := hash sha256 (hash sha256 (s.pDigest ++ be32 cc ++ name) ++ ref) }, 0)
+  | .locality loc =>
+      (match localityMerge s.locality loc with
+       | none => (s, RC_RANGE)
+       | some m => ({ s with pDigest := hash sha256 (s.pDigest ++ be32 CC_PolicyLocality ++ [UInt8.ofNat loc]), locality := m }, 0))
+  | .physicalPresence => ({ s with pDigest := hash sha256 (s.pDigest ++ be32 CC_PolicyPhysicalPresence), ppRequired := true }, 0)
+  | .cpHash h =>
+      if s.cpHash ≠ [] ∧ s.cpHash ≠ h then (s, RC_CPHASH)
+      else ({ s with pDigest := hash sha256 (s.pDigest ++ be32 CC_PolicyCpHash ++ h), cpHash := h }, 0)
   | .pcr sel values given g =>
       if s.trial then
         ({ s with pDigest := pcrExtend s.pDigest sel (if given = [] then hash sha256 values else given) }, 0)
@@ -350,7 +402,7 @@ def policyStep (s : Session) : PolicyOp → Session × Nat
 
 /-- after a policy session authorized a command its policy data is reset (`SessionResetPolicyData`) -/
 def resetPolicy (s : Session) : Session :=
-  if s.policy then { s with pDigest := List.replicate 32 0, needAuth := false, needPw := false, pcc := 0, pcrCtr := 0 } else s
+  if s.policy then { s with pDigest := List.replicate 32 0, needAuth := false, needPw := false, pcc := 0, pcrCtr := 0, locality := 0, ppRequired := false, cpHash := [] } else s
 
 /-- after a successful command the session's nonceTPM is the one in the response -/
 def St.rollNonce (st : St) (sh : Nat) (n : Bytes) : St :=
